@@ -16,6 +16,7 @@ KINDS = {
     "char": dict(type="char", mk="'x'", eq=True, arith=True, ordered=True, binary=True, labelled=True),
     "string": dict(type="std::string", mk='std::string("a b")', eq=True, arith=False, ordered=True, binary=False, labelled=True, braced='"abc"'),
     "tag": dict(type="verifprog::TagEq", mk='verifprog::TagEq{3, "t"}', eq=True, arith=False, ordered=False, binary=False, labelled=True, braced='{3, "t"}'),
+    "empty": dict(type="verifprog::EmptyEq", mk="verifprog::EmptyEq()", eq=True, arith=False, ordered=False, binary=True, labelled=True),
     "plain": dict(type="verifprog::Plain", mk="verifprog::Plain{3, 0.5}", eq=False, arith=False, ordered=False, binary=True, labelled=True, braced="{3, 0.5}"),
 }
 
@@ -39,6 +40,7 @@ PRELUDE = r'''
 namespace verifprog {
 struct TagEq { int a = 0; std::string b; bool operator==(const TagEq &o) const { return a == o.a && b == o.b; } };
 struct Plain { int a; double b; };
+struct EmptyEq { bool operator==(const EmptyEq &) const { return true; } };
 inline std::string tmp(const char *name) {
     const char *d = std::getenv("VERIF_SCRATCH");
     return std::string(d && *d ? d : "/tmp") + "/prog_" + name;
@@ -62,6 +64,9 @@ s("ctor_edges_vector", "DU", "std::vector<BaseGraph::Edge> es = {{0, 2}, {0, 1}}
 s("ctor_edges_deque_set", "DU", "std::deque<BaseGraph::Edge> a = {{0, 2}}; std::set<BaseGraph::Edge> b = {{1, 2}}; std::forward_list<BaseGraph::Edge> c = {{3, 2}}; G g(a), h(b), k(c); (void)g; (void)h; (void)k;", unlabelled=True)
 s("ctor_labeled_list", "DU", "std::list<BaseGraph::LabeledEdge<L>> es = {{0, 2, LAB}, {0, 1, L()}, {5, 10, LAB}}; G g(es); (void)g;", labelled=True)
 s("ctor_labeled_vector_deque", "DU", "std::vector<BaseGraph::LabeledEdge<L>> a = {{0, 2, LAB}}; std::deque<BaseGraph::LabeledEdge<L>> b = {{1, 2, LAB}}; std::forward_list<BaseGraph::LabeledEdge<L>> c = {{1, 3, LAB}}; G g(a), h(b), k(c); (void)g; (void)h; (void)k;", labelled=True)
+# class template argument deduction, exactly as the Doxygen comment of the constructor writes it (C++17 and later)
+s("ctor_labeled_ctad", "D", "std::list<BaseGraph::LabeledEdge<L>> labeledEdges = {{0, 2, LAB}, {0, 1, LAB}, {0, 0, LAB}, {5, 10, LAB}}; BaseGraph::LabeledDirectedGraph graph(labeledEdges); (void)graph.getSize();", labelled=True, cxx17=True)
+s("ctor_labeled_ctad", "U", "std::list<BaseGraph::LabeledEdge<L>> labeledEdges = {{0, 2, LAB}, {0, 1, LAB}, {0, 0, LAB}, {5, 10, LAB}}; BaseGraph::LabeledUndirectedGraph graph(labeledEdges); (void)graph.getSize();", labelled=True, cxx17=True)
 s("ctor_labeled_set", "DU", "std::set<BaseGraph::LabeledEdge<L>> a = {{0, 2, LAB}}; G g(a); (void)g;", labelled=True, ordered=True)
 s("size_resize_count", "DU", "G g(2); g.resize(5); (void)g.getSize(); (void)g.getEdgeNumber();")
 s("equality", "DU", "G g(2), h(2); g.addEdge(0, 1, LAB); bool a = g == h, b = g != h; (void)a; (void)b;", eq=True)
@@ -152,9 +157,11 @@ for cls, d in (("DW", True), ("UW", False)):
 FIXED = {"DM": "BaseGraph::DirectedMultigraph", "UM": "BaseGraph::UndirectedMultigraph", "DW": "BaseGraph::DirectedWeightedGraph", "UW": "BaseGraph::UndirectedWeightedGraph"}
 
 
-def applicable(sn, kind):
+def applicable(sn, kind, std=None):
     k = KINDS[kind]
     r = sn["req"]
+    if r.get("cxx17") and std == "c++14":
+        return False
     if sn["scope"] in FIXED:
         return kind == "none"  # label-independent: instantiated once, in the NoLabel bundle
     if r.get("unlabelled") and k["labelled"]:
@@ -174,12 +181,12 @@ def applicable(sn, kind):
     return True
 
 
-def instances(kind):
-    """(cell id, function body) for every applicable snippet x class of the label kind"""
+def instances(kind, std=None):
+    """(cell id, function body) for every applicable snippet x class of the label kind (and language standard)"""
     k = KINDS[kind]
     out = []
     for sn in S:
-        if not applicable(sn, kind):
+        if not applicable(sn, kind, std):
             continue
         scopes = []
         if sn["scope"] in FIXED:
